@@ -107,7 +107,7 @@ def run(tier):
         ctx.sample({"expression": c["src"], "tag": t, "interpreted": c["I"], "compiled": c["C"]})
     for c in cases:
         ctx.case(c["src"])
-    validate(ctx, cases, tags, "C08 grammar", keyfn=lambda key, c, rid, eng: dict(key, observed=c[eng][rid - 1]["k"] + (":" + c[eng][rid - 1].get("c", "") if c[eng][rid - 1]["k"] == "exc" else "")))
+    validate(ctx, cases, tags, "C08 grammar", keyfn=lambda key, c, rid, eng: dict(key, record_has_field_m=(rid == 4), observed=c[eng][rid - 1]["k"] + (":" + c[eng][rid - 1].get("c", "") if c[eng][rid - 1]["k"] == "exc" else "")))
     stream_half(ctx)
     ctx.exhaustive = True
     ctx.extra["rule"] = "the finite grammar of the property, completely: 8 operators x {left,right} x 13 operand kinds x 10 boolean contexts (+ chains, helpers, truthiness) x 3 records x 2 engines; distinct = distinct expression texts"
